@@ -103,3 +103,55 @@ func Verif_c36_modes() {
 	}
 	verifReach("end")
 }
+
+var verifEditorConfigs = [...]string{
+	"[*.sh]\nsimplify = true\n",
+	"[*.sh]\nminify = true\n",
+	"[*.sh]\nindent_style = space\nindent_size = 2\n",
+	"[*.sh]\nbinary_next_line = true\nswitch_case_indent = true\n",
+	"[*.sh]\nspace_redirects = true\nfunction_next_line = true\nkeep_padding = true\n",
+	"[*.sh]\nshell_variant = posix\n",
+}
+
+var verifSetFiles = [...]string{
+	"echo $(($x))\n", "if a; then\n\tb\nfi\n", "a() {\n\tb >c\n}\n", "a &&\n\tb\ncase x in\ny) z ;;\nesac\n", "echo  hi\n", "[[ a ]]\n",
+}
+
+// Verif_c36_sets: what shfmt reports for a file does not depend on which
+// other files were formatted before it in the same run (EditorConfig mode:
+// the first file lies in a directory with an .editorconfig section, the
+// second does not).
+func Verif_c36_sets() {
+	ec := verifEditorConfigs[verifChoice("editorconfig", len(verifEditorConfigs))]
+	first := verifSetFiles[verifChoice("first", len(verifSetFiles))]
+	second := verifSetFiles[verifChoice("second", len(verifSetFiles))]
+	mode := verifChoice("mode", 3) // plain, -l, -d
+	run := func(withFirst bool) (string, bool) {
+		verifShfmtReset()
+		useEditorConfig = true
+		ecQuery = verifNewQuery()
+		switch mode {
+		case 1:
+			list.val = "true"
+		case 2:
+			diff.val = true
+		}
+		zzverifshim.VFS["/d"] = &zzverifshim.VNode{Dir: true, Mode: fs.ModeDir | 0o755, Entries: []string{"a", "b"}}
+		zzverifshim.VFS["/d/a"] = &zzverifshim.VNode{Dir: true, Mode: fs.ModeDir | 0o755, Entries: []string{".editorconfig", "f.sh"}}
+		zzverifshim.VFS["/d/b"] = &zzverifshim.VNode{Dir: true, Mode: fs.ModeDir | 0o755, Entries: []string{"g.sh"}}
+		zzverifshim.VFS["/d/a/.editorconfig"] = &zzverifshim.VNode{Mode: 0o644, Data: []byte(ec)}
+		zzverifshim.VFS["/d/a/f.sh"] = &zzverifshim.VNode{Mode: 0o644, Data: []byte(first)}
+		zzverifshim.VFS["/d/b/g.sh"] = &zzverifshim.VNode{Mode: 0o644, Data: []byte(second)}
+		if withFirst {
+			formatPath("/d/a/f.sh", false)
+		}
+		zzverifshim.VStdoutNode.Data = nil
+		err := formatPath("/d/b/g.sh", false)
+		return string(zzverifshim.VStdoutNode.Data), err == nil
+	}
+	outAlone, okAlone := run(false)
+	outAfter, okAfter := run(true)
+	verifAssert(okAlone == okAfter, "the exit status for a file depends on the files formatted before it")
+	verifAssert(outAlone == outAfter, "the output for a file depends on the files formatted before it")
+	verifReach("end")
+}
